@@ -774,6 +774,14 @@ func TestC09Meta(t *testing.T) {
 		for name, m := range raw {
 			try("raw "+name, []byte(m))
 		}
+		// XML declarations: encodings an XML processor may or may not know, odd version numbers, standalone, a byte order mark
+		body := string(xt.Write(c09FullMetadata(), xt.Style{}))
+		for _, decl := range []string{`<?xml version="1.0" encoding="UTF-8"?>`, `<?xml version="1.0" encoding="utf-8" standalone="yes"?>`, `<?xml version="1.0" encoding="UTF-16"?>`, `<?xml version="1.0" encoding="utf8"?>`,
+			`<?xml version="1.0" encoding="ISO-8859-1"?>`, `<?xml version="1.0" encoding="US-ASCII"?>`, `<?xml version="1.0" encoding="windows-1252"?>`, `<?xml version="1.0" encoding="ISO-8859-15"?>`, `<?xml version="1.0" encoding="EBCDIC-CP-US"?>`,
+			`<?xml version="1.0" encoding=""?>`, `<?xml version="1.1"?>`, `<?xml version="2.0" encoding="x"?>`, `<?xml encoding="UTF-8"?>`, `<?xml?>`, "\xef\xbb\xbf" + `<?xml version="1.0"?>`, "\xff\xfe<\x00?\x00x\x00m\x00l\x00", `<?xml version="1.0" encoding="UTF-8"?><?xml version="1.0"?>`} {
+			try("xml declaration "+decl, []byte(decl+"\n"+body))
+		}
+		try("utf-16 bytes", append([]byte("\xff\xfe"), utf16le(body)...))
 		col.AddDistinct(n, r)
 		col.Count("spmeta-variants", n)
 		col.Sample(map[string]any{"kind": "spmeta", "base": short(string(xt.Write(base, plainStyle.W)), 500), "certificate_variants": len(c09CertVariants())})
@@ -946,6 +954,9 @@ func genC09Case(t *rapid.T) C09Case {
 	if c.Req.Body != "" && rapid.IntRange(0, 3).Draw(t, "chunked") == 0 {
 		c.Req.Chunked = true
 	}
+	if c.Req.Body != "" && rapid.IntRange(0, 5).Draw(t, "bodyfails") == 0 {
+		c.Req.BodyFailAfter = rapid.SampledFrom([]int{1, 10, 100, 1000}).Draw(t, "bodyfailafter")
+	}
 	if rapid.IntRange(0, 5).Draw(t, "brokenpipe") == 0 {
 		c.Req.FailWriteAfter = rapid.SampledFrom([]int{1, 17, 200, 4096}).Draw(t, "brokenafter")
 	}
@@ -1007,6 +1018,16 @@ func TestC09Endpoints(t *testing.T) {
 			}
 			for _, v := range valid {
 				reqs = append(reqs, v.req)
+				if v.req.Body != "" {
+					// the upload breaks off: the body read fails after some bytes, with and without an announced length
+					for _, after := range []int{1, 64, len(v.req.Body) - 1} {
+						broken := v.req
+						broken.BodyFailAfter = after
+						reqs = append(reqs, broken)
+						broken.Chunked = true
+						reqs = append(reqs, broken)
+					}
+				}
 			}
 			for _, r := range reqs {
 				n++
@@ -1021,4 +1042,13 @@ func TestC09Endpoints(t *testing.T) {
 		col.Count("endpoint-sweep", n)
 		col.AddDistinct(n, n)
 	})
+}
+
+// utf16le encodes ASCII text as UTF-16 little endian.
+func utf16le(s string) []byte {
+	out := make([]byte, 0, 2*len(s))
+	for _, r := range s {
+		out = append(out, byte(r), byte(r>>8))
+	}
+	return out
 }
